@@ -50,6 +50,26 @@
                              public (priv = 0) or private (priv = 1) key: cls 3 accepted, else
                              rejected; rt = 1 iff it then survives Marshal/Unmarshal unchanged
 
+   14 inl_gen inl_ext <canon> <digest> <id> ex
+                             id = IDFromPublicKey(pk) computed with AdvancedEnableInlining = inl_gen;
+                             ex = id.ExtractPublicKey() with AdvancedEnableInlining = inl_ext
+                             (0 equal key, 1 ErrNoPublicKey, 2 other error, 3 a different key)
+   15 api ispr <goid> <payload> <sealed_pid> <sealed_rest> got_ok <got_pid> <got_rest>
+      pr_res <stored_pid> <stored_addrs> <sealed_addrs>
+                             Seal(rec, sk); the producer then MUTATES rec; the same *Envelope is
+                             consumed in-process (api 0 Record(), 1 TypedRecord(fresh), 2 pstoremem
+                             / 3 pstoreds ConsumePeerRecord).  sealed_* = a fresh decoding of
+                             env.RawPayload (= payload), got_* = what the envelope handed out,
+                             stored_* = where and what the peerstore stored; goid = signer's ID
+   16 n {code <value>}*n res <id> s_ok <s_id> a_ok <a_id>
+                             a multiaddr built from these components; IDFromP2PAddr, SplitAddr and
+                             AddrInfoFromP2pAddr on it (ok flag, ID)
+   17 api reuse <payload> res <relay> <peer> exp_hi exp_lo
+                             a relay voucher payload sealed by hand and consumed (api 0
+                             ConsumeEnvelope, 1 ConsumeTypedEnvelope; reuse = 1: into a destination
+                             that already holds another voucher): res as in kind 6; the voucher's
+                             fields after consumption
+
    Kind 6 in detail.  The key table lists every key of the case (canon =
    MarshalPublicKey(pk), goid = IDFromPublicKey(pk) as computed by Go), the seal
    table every signature value issued in the case: Sign(key kidx,
@@ -321,6 +341,24 @@ Definition monitor6 (c : case6) : list Z :=
     [ (negb (c_res c =? 1) || sealed_as_accepted c, 1);
       (negb (c_prres c =? 1) || ((c_res c =? 1) && id_is_signers c), 2) ] viol.
 
+(* kind 7: Verify(key2, m2, s2) = res where s = Sign(key1, m); same = 1 iff key2 is key1's
+   public key *)
+Definition monitor7 (same : Z) (m s m2 s2 : bytes) (res : Z) : list Z :=
+  first_fail
+    [ (* verifies only under the signer's key, only for the signed message *)
+      (negb (res =? 1) || ((same =? 1) && beq m m2), 71);
+      (* and the untouched (key, message, signature) does verify *)
+      (negb ((same =? 1) && beq m m2 && beq s s2) || (res =? 1), 72) ] viol.
+
+Fixpoint get_comps (n : nat) (l : list Z) : option (list (N * bytes) * list Z) :=
+  match n with
+  | O => Some ([], l)
+  | S n' =>
+      do (code, r0) <- get_z l; do (v, r1) <- get_bytes r0;
+      do (cs, r2) <- get_comps n' r1;
+      Some ((Z.to_N code, v) :: cs, r2)
+  end.
+
 (* ---- the two entry points ------------------------------------------------------ *)
 Definition conform_case (l : list Z) : list Z :=
   match l with
@@ -457,6 +495,59 @@ Definition conform_case (l : list Z) : list Z :=
       end
   | [13; bits; priv; cls; rt] =>
       if Bool.eqb (cls =? 3) (rsa_ok bits) then [] else mism 131
+  | 14 :: ig :: ie :: r =>
+      match (do (canon, r1) <- get_bytes r; do (dg, r2) <- get_bytes r1; do (id, r3) <- get_bytes r2;
+             match r3 with [ex] => Some (canon, dg, id, ex) | _ => None end) with
+      | Some (canon, dg, id, ex) =>
+          first_fail
+            [ (beq (id_of_key_flag (ig =? 1) max_inline canon dg) id, 141);
+              (match extract_key id with
+               | ExKey m => beq m canon && (ex =? 0)
+               | ExNoKey => ex =? 1
+               | ExInvalid => false
+               end, 142) ] mism
+      | None => malformed 14
+      end
+  | 15 :: api :: ispr :: r =>
+      match (do (goid, r1) <- get_bytes r; do (pl, r2) <- get_bytes r1; do (spid, r3) <- get_bytes r2;
+             Some (pl, spid)) with
+      | Some (pl, spid) =>
+          if ispr =? 1 then
+            match record_peer_id pl with
+            | Some x => if beq x spid then [] else mism 151
+            | None => mism 152
+            end
+          else []
+      | None => malformed 15
+      end
+  | 16 :: n :: r =>
+      if negb (small_count n) then malformed 16 else
+      match (do (cs, r1) <- get_comps (Z.to_nat n) r;
+             do (res, r2) <- get_z r1; do (id, r3) <- get_bytes r2;
+             do (sok, r4) <- get_z r3; do (sid, r5) <- get_bytes r4;
+             do (aok, r6) <- get_z r5; do (aid, r7) <- get_bytes r6;
+             match r7 with [] => Some (cs, res, id, (sok, sid, aok, aid)) | _ => None end) with
+      | Some (cs, res, id, (sok, sid, aok, aid)) =>
+          let agrees (ok : Z) (x : bytes) :=
+            match id_from_p2p_addr cs with
+            | Some v => (ok =? 1) && beq x v
+            | None => ok =? 0
+            end in
+          first_fail [ (agrees res id, 161); (agrees sok sid, 162); (agrees aok aid, 163) ] mism
+      | None => malformed 16
+      end
+  | 17 :: api :: reuse :: r =>
+      match (do (pl, r1) <- get_bytes r; do (res, r2) <- get_z r1;
+             do (rl, r3) <- get_bytes r2; do (pe, r4) <- get_bytes r3; do (ex, r5) <- get_u64 r4;
+             match r5 with [] => Some (pl, res, rl, pe, ex) | _ => None end) with
+      | Some (pl, res, rl, pe, ex) =>
+          match voucher_fields pl with
+          | Some (rl', pe', ex') =>
+              if (res =? 1) && beq rl rl' && beq pe pe' && N.eqb ex ex' then [] else mism 171
+          | None => if res =? 1 then mism 172 else []
+          end
+      | None => malformed 17
+      end
   | _ => malformed 0
   end.
 
@@ -517,11 +608,7 @@ Definition monitor_case (l : list Z) : list Z :=
              do (m2, r3) <- get_bytes r2; do (s2, r4) <- get_bytes r3;
              match r4 with [res] => Some (same, m, s, m2, (s2, res)) | _ => None end) with
       | Some (same, m, s, m2, (s2, res)) =>
-          first_fail
-            [ (* verifies only under the signer's key, only for the signed message *)
-              (negb (res =? 1) || ((same =? 1) && beq m m2), 71);
-              (* and the untouched (key, message, signature) does verify *)
-              (negb ((same =? 1) && beq m m2 && beq s s2) || (res =? 1), 72) ] viol
+          monitor7 same m s m2 s2 res
       | None => malformed 7
       end
   | 8 :: r =>
@@ -559,5 +646,64 @@ Definition monitor_case (l : list Z) : list Z :=
   | [13; bits; priv; cls; rt] =>
       (* every size that can be generated unmarshals and round-trips *)
       if rsa_ok bits && negb ((cls =? 3) && (rt =? 1)) then viol 131 else []
+  | 14 :: ig :: ie :: r =>
+      match (do (canon, r1) <- get_bytes r; do (dg, r2) <- get_bytes r1; do (id, r3) <- get_bytes r2;
+             match r3 with [ex] => Some (id, ex) | _ => None end) with
+      | Some (id, ex) =>
+          (* the key is recoverable from every ID that embeds it, whatever the inlining
+             switch is now; never a different key *)
+          first_fail [ (negb (ex =? 3), 141);
+                       (match id with 0%N :: _ => ex =? 0 | _ => true end, 142) ] viol
+      | None => malformed 14
+      end
+  | 15 :: api :: ispr :: r =>
+      match (do (goid, r1) <- get_bytes r; do (pl, r2) <- get_bytes r1; do (spid, r3) <- get_bytes r2;
+             do (srest, r4) <- get_bytes r3; do (gok, r5) <- get_z r4;
+             do (gpid, r6) <- get_bytes r5; do (grest, r7) <- get_bytes r6;
+             do (prres, r8) <- get_z r7; do (stpid, r9) <- get_bytes r8;
+             do (staddrs, r10) <- get_bytes r9; do (saddrs, r11) <- get_bytes r10;
+             match r11 with [] => Some (goid, spid, srest, gok, (gpid, grest, prres, stpid, (staddrs, saddrs))) | _ => None end) with
+      | Some (goid, spid, srest, gok, (gpid, grest, prres, stpid, (staddrs, saddrs))) =>
+          first_fail
+            [ (* what the envelope hands out is the decoding of what was sealed *)
+              (negb (gok =? 1) || (beq gpid spid && beq grest srest), 151);
+              (* a peerstore accepts only the sealed record, whose ID is the signer's,
+                 and stores the sealed addresses under that ID *)
+              (negb (prres =? 1) || (beq spid goid && beq stpid goid && beq staddrs saddrs), 152) ] viol
+      | None => malformed 15
+      end
+  | 16 :: n :: r =>
+      if negb (small_count n) then malformed 16 else
+      match (do (cs, r1) <- get_comps (Z.to_nat n) r;
+             do (res, r2) <- get_z r1; do (id, r3) <- get_bytes r2;
+             do (sok, r4) <- get_z r3; do (sid, r5) <- get_bytes r4;
+             do (aok, r6) <- get_z r5; do (aid, r7) <- get_bytes r6;
+             match r7 with [] => Some (cs, res, id, (sok, sid, aok, aid)) | _ => None end) with
+      | Some (cs, res, id, (sok, sid, aok, aid)) =>
+          first_fail
+            [ (* the three readers of the /p2p form agree *)
+              ((res =? sok) && (res =? aok) && beq id sid && beq id aid, 161);
+              (* an address ending in /p2p/ID names ID (the form AddrInfoToP2pAddrs writes) *)
+              (match id_from_p2p_addr cs with
+               | Some v => (res =? 1) && beq id v
+               | None => res =? 0
+               end, 162) ] viol
+      | None => malformed 16
+      end
+  | 17 :: api :: reuse :: r =>
+      match (do (pl, r1) <- get_bytes r; do (res, r2) <- get_z r1;
+             do (rl, r3) <- get_bytes r2; do (pe, r4) <- get_bytes r3; do (ex, r5) <- get_u64 r4;
+             match r5 with [] => Some (pl, res, rl, pe, ex) | _ => None end) with
+      | Some (pl, res, rl, pe, ex) =>
+          (* an accepted voucher holds exactly the (relay, peer, expiration) of the
+             sealed payload, both being peer IDs *)
+          if res =? 1 then
+            match voucher_fields pl with
+            | Some (rl', pe', ex') => if beq rl rl' && beq pe pe' && N.eqb ex ex' then [] else viol 171
+            | None => viol 172
+            end
+          else []
+      | None => malformed 17
+      end
   | _ => malformed 0
   end.
